@@ -274,6 +274,100 @@ theorem undisciplined_witness :
 /-- and that reader is indeed not disciplined, while the writer is -/
 example : disc .n uProg = false ∧ disc .n wProg = true := by decide
 
+/-! ## Progress: bracketed, un-nested sections cannot dead-lock; a nested one does -/
+
+/-- **no dead-lock under the discipline**: in every reachable state, as long as some thread still has work
+    to do, some thread can take a step — for any number of threads, any programs obeying the discipline
+    (sections bracketed and not nested) and any schedule. With one lock, a thread inside a section can
+    always continue (its next step is an access or the release), and when nobody is inside a section any
+    acquisition is enabled. -/
+theorem progress (s0 s : St) (h0 : Init s0) (hr : Reach s0 s) (k : Nat) (hk : (s.th k).prog ≠ []) :
+    ∃ i s', StepRel s i s' := by
+  have hi := inv_reach s0 s h0 hr
+  by_cases hall : ∀ j, (s.th j).mode = .n
+  · -- nobody holds the lock: thread k's next step is an acquisition, and it is enabled
+    have hd := hi.disc k
+    rw [hall k] at hd
+    rcases hp : (s.th k).prog with _ | ⟨st, p⟩
+    · exact absurd hp hk
+    · rw [hp] at hd
+      cases st with
+      | acqR => exact ⟨k, _, StepRel.acqR s k p hp (hall k) (by intro j; rw [hall j]; decide)⟩
+      | acqW => exact ⟨k, _, StepRel.acqW s k p hp (hall k) hall⟩
+      | relR => simp [disc] at hd
+      | relW => simp [disc] at hd
+      | rd f => simp [disc] at hd
+      | wr f v => simp [disc] at hd
+  · -- some thread j is inside a section: its next step is an access or its release
+    have ⟨j, hj⟩ : ∃ j, (s.th j).mode ≠ .n := by
+      apply Classical.byContradiction
+      intro hne
+      exact hall (fun j => Classical.byContradiction fun h => hne ⟨j, h⟩)
+    have hd := hi.disc j
+    rcases hp : (s.th j).prog with _ | ⟨st, p⟩
+    · rw [hp] at hd
+      cases hm : (s.th j).mode <;> rw [hm] at hd <;> simp_all [disc]
+    · rw [hp] at hd
+      cases hm : (s.th j).mode with
+      | n => exact absurd hm hj
+      | r =>
+        rw [hm] at hd
+        cases st with
+        | rd f => exact ⟨j, _, StepRel.rd s j f p hp⟩
+        | relR => exact ⟨j, _, StepRel.relR s j p hp hm⟩
+        | acqR => simp [disc] at hd
+        | acqW => simp [disc] at hd
+        | relW => simp [disc] at hd
+        | wr f v => simp [disc] at hd
+      | w =>
+        rw [hm] at hd
+        cases st with
+        | rd f => exact ⟨j, _, StepRel.rd s j f p hp⟩
+        | wr f v => exact ⟨j, _, StepRel.wr s j f v p hp⟩
+        | relW => exact ⟨j, _, StepRel.relW s j p hp hm⟩
+        | acqR => simp [disc] at hd
+        | acqW => simp [disc] at hd
+        | relR => simp [disc] at hd
+
+/-- a method that takes the read lock while its caller holds the write lock (the shape of
+    `ReloadAdminResources → scepAuthority.Validate → LoadProvisionerByName` before fix 3c3b5e1) -/
+def nestedProg : List Step := [.acqW, .wr .provisioners 1, .acqR, .rd .provisioners, .relR, .relW]
+def d0 : St := ⟨fun _ => 0, fun k => if k = 0 then ⟨nestedProg, .n, fun _ => 0, []⟩ else idle⟩
+def d1 : St := ⟨d0.mem, setTh d0 0 ((d0.th 0).enter [.wr .provisioners 1, .acqR, .rd .provisioners, .relR, .relW] .w d0.mem)⟩
+def d2 : St := ⟨fun g => if g = .provisioners then 1 else d1.mem g, setTh d1 0 ((d1.th 0).didWrite [.acqR, .rd .provisioners, .relR, .relW])⟩
+
+/-- **a nested acquisition dead-locks**: that program reaches a state in which it still has work to do and
+    no thread at all can take a step (`sync.RWMutex` is not re-entrant) — which is why the table obligation
+    `no_reentrant_lock_deep` is needed besides the discipline of the accesses -/
+theorem nested_section_deadlocks :
+    ∃ s, Reach d0 s ∧ (s.th 0).prog ≠ [] ∧ ∀ i s', ¬ StepRel s i s' := by
+  have s1 : StepRel d0 0 d1 := StepRel.acqW d0 0 _ rfl rfl
+    (by intro k; simp only [d0]; split <;> rfl)
+  have s2 : StepRel d1 0 d2 := StepRel.wr d1 0 .provisioners 1 _ rfl
+  refine ⟨d2, .step _ _ 0 (.step _ _ 0 .init s1) s2, by decide, ?_⟩
+  intro i s' st
+  have hprog : ∀ j, (d2.th j).prog = if j = 0 then [.acqR, .rd .provisioners, .relR, .relW] else [] := by
+    intro j
+    simp only [d2, d1, d0, setTh, Thread.didWrite, Thread.enter, idle]
+    split <;> simp_all
+  have hmode0 : (d2.th 0).mode = .w := by decide
+  cases st with
+  | acqR p h hm en =>
+    by_cases h0 : i = 0
+    · subst h0
+      rw [hmode0] at hm
+      cases hm
+    · rw [hprog i, if_neg h0] at h
+      cases h
+  | acqW p h hm en => rw [hprog i] at h; split at h <;> cases h
+  | relR p h hm => rw [hprog i] at h; split at h <;> cases h
+  | relW p h hm => rw [hprog i] at h; split at h <;> cases h
+  | rd f p h => rw [hprog i] at h; split at h <;> cases h
+  | wr f v p h => rw [hprog i] at h; split at h <;> cases h
+
+/-- the nested program is rejected by the discipline predicate, so `progress` does not apply to it -/
+example : disc .n nestedProg = false := by decide
+
 /-! ## The regenerated table -/
 
 open Verif.Generated.Locks
